@@ -11,10 +11,12 @@ echo "build ok"
 echo "--- demo WITH change (expected to fail)"
 go test -vet=off -count=1 "$@" > /tmp/seed_demo_with.log 2>&1; rc_with=$?
 tail -3 /tmp/seed_demo_with.log
-git stash -q -- $(git diff --name-only) 
+# (no git stash: the stash is shared by all worktrees of the repository)
+git diff > /tmp/verify_seed_$$.diff
+git apply -R /tmp/verify_seed_$$.diff
 echo "--- demo WITHOUT change (expected to pass)"
 go test -vet=off -count=1 "$@" > /tmp/seed_demo_without.log 2>&1; rc_without=$?
 tail -3 /tmp/seed_demo_without.log
-git stash pop -q
+git apply /tmp/verify_seed_$$.diff; rm -f /tmp/verify_seed_$$.diff
 echo "rc_with=$rc_with rc_without=$rc_without"
 [ $rc_with -ne 0 ] && [ $rc_without -eq 0 ] && echo "SEED CONFIRMED" || echo "SEED NOT CONFIRMED"
